@@ -24,6 +24,8 @@ CONSTANTS
     DevVals = {"flip", "otherOrigin", "none"}
     PresentBudget = 0
     BurstN = 64
+    PressMax = 0
+    TouchOn = {}
     Mode = "mc"
     Depth = 0
 VIEW View
